@@ -64,7 +64,7 @@ def run(ctx):
     args = ["--count", "150" if quick else "1500", "--maxn", "150", "--mode", "quick" if quick else "thorough"]
     r = codec.run_simple("C16", ctx, "ess", args,
                          oracle_aspects={"status", "exact", "eccf", "eccb", "diam", "dv", "radius", "rv", "sched"},
-                         corr_aspects={"replay", "schedrv"},
+                         corr_aspects={"replay", "replayrv", "schedrv"},
                          nontrivial=lambda c: None if int(c.get("n", "0")) < 2 else
                          (c.get("g"), c.get("sym"), c.get("rad"), c.get("lvl"), c.get("tot")))
     r["rule"] = ("all digraphs on <= 3 nodes (loops included) x every level x use_tot x {default radial set, every explicit "
